@@ -95,6 +95,10 @@ PROPS.update({
     "C16": _b("bounded run-time contract checking of the sampler's outputs over configurations, burn-in/thinning lengths and seeds",
               "numpy Generator / iterator code: bounded exploration. Every sampled hypergraph is checked for the statement's clauses; the conditioning clauses on all initial hypergraphs of a "
               "small scope and on random degree/size sequences; same seed => same sequence.", "DESIGN.md §7 C16"),
+    "C17": _b("bounded run-time contract checking of HypergraphMT.fit / HySC.fit outputs (shapes, ranges, isolated rows, bookkeeping, ascent, agreement with the definition, reproducibility)",
+              "Floating-point EM and k-means on numpy/scipy/sklearn objects: no contract within reach of the deductive engine. After the repair of the SciPy incompatibility the models "
+              "run, and every clause of the statement is evaluated on 13 fixed and seeded random hypergraphs over a grid of K, seeds, realisations, iteration limits and flags. Several "
+              "numerical defects of Hypergraph-MT are recorded as known findings.", "DESIGN.md §7 C17"),
     "C18": _b("bounded run-time contract checking of the random-walk operators (exact rationals as oracle) and of the contagion (exact synchronous reference for rates in {0,1})",
               "Floating point / numpy code: bounded exploration over all connected hypergraphs on <= 5 nodes and all initial conditions, horizons and rate triples of a stated grid.",
               "DESIGN.md §7 C18"),
@@ -108,9 +112,6 @@ PROPS.update({
               "Floating point and networkx delegation: bounded exploration only. CEC/HEC are judged only where an independent long-run iteration converges.", "DESIGN.md §7 C20"),
 })
 
-NOT_APPLICABLE = {
-    "C17": "floating-point EM / k-means on numpy-scipy-sklearn objects: no contract within reach of the deductive engine expresses it, "
-           "and both fit() methods crash on the installed SciPy (csr_array.getnnz) before any postcondition could be evaluated",
-}
+NOT_APPLICABLE = {}
 NOT_REACHED = "not reached yet in the time available (planned, see DESIGN.md §7)"
 ALL = [f"C{i:02d}" for i in range(1, 21)]
